@@ -68,7 +68,13 @@ def roundtrip_state(task):
             continue
         d = _tmp()
         try:
-            v = events.with_watchdog(lambda: _roundtrip(tracks, w, fmt, d, dict(case, format=fmt)), 60)
+            try:
+                v = events.with_watchdog(lambda: _roundtrip(tracks, w, fmt, d, dict(case, format=fmt)), 60)
+            except events.Hang:  # believed only when it happens twice, the second time with a 5x limit
+                shutil.rmtree(d, ignore_errors=True)
+                d = _tmp()
+                tracks = explore.rebuild(w, seed, history)
+                v = events.with_watchdog(lambda: _roundtrip(tracks, w, fmt, d, dict(case, format=fmt)), 300)
             out.extend(v)
             n_rt += 1
         except events.Hang:
@@ -218,7 +224,10 @@ def readonly_state(task):
         for name, thunk in _ops(tracks, w, d):
             n += 1
             try:
-                events.with_watchdog(thunk, 60)
+                try:
+                    events.with_watchdog(thunk, 60)
+                except events.Hang:  # believed only when it happens twice (read-only: safe to repeat)
+                    events.with_watchdog(thunk, 300)
             except events.Hang:
                 out.append(vio("C16", "hang", f"{name} did not terminate", dict(case, op=name), "readonly", name))
                 break
